@@ -444,7 +444,7 @@ class Translator:
 
 def write(ctx=None):
     out, sig = Translator().run()
-    gen = "/verif/coq/Gen"
+    gen = os.path.join(os.path.dirname(os.path.dirname(os.path.abspath(__file__))), "coq", "Gen")
     os.makedirs(gen, exist_ok=True)
     for path, text in ((os.path.join(gen, "GaussCirc.v"), out), (os.path.join(gen, "gausscirc_sig.json"), json.dumps(sig, indent=1))):
         old = open(path).read() if os.path.exists(path) else None
@@ -459,5 +459,5 @@ def translate_gausscirc(ctx):
 
 if __name__ == "__main__":
     sig = write()
-    print(open("/verif/coq/Gen/GaussCirc.v").read())
+    print(open(os.path.join(os.path.dirname(os.path.dirname(os.path.abspath(__file__))), "coq", "Gen", "GaussCirc.v")).read())
     print(json.dumps(sig, indent=1))
